@@ -5,7 +5,7 @@ use crate::*;
 use core::alloc::Layout;
 use core::ptr::NonNull;
 
-const N: usize = 16; // max block size with symbolic contents
+const N: usize = 8; // max block size with symbolic contents
 
 unsafe fn fill(p: *mut u8, n: usize, vals: &[u8; N]) {
     let mut i = 0;
@@ -74,10 +74,13 @@ fn shrink_h<const M: usize>(last: bool) {
     core::mem::forget(s.b);
 }
 #[kani::proof]
+#[kani::stub(Bump::alloc_layout_slow, slow_refuses_panic)]
 fn k_shrink() { shrink_h::<1>(true) }
 #[kani::proof]
+#[kani::stub(Bump::alloc_layout_slow, slow_refuses_panic)]
 fn k_shrink_m8() { shrink_h::<8>(true) }
 #[kani::proof]
+#[kani::stub(Bump::alloc_layout_slow, slow_refuses_panic)]
 fn k_shrink_notlast() { shrink_h::<1>(false) }
 
 fn grow_h<const M: usize>(last: bool) {
@@ -165,6 +168,7 @@ use allocator_api2::alloc::Allocator;
 
 // ---------------------------------------------------------------- slice / value initialisation (C02)
 #[kani::proof]
+#[kani::stub(Bump::alloc_layout_slow, slow_refuses_panic)]
 #[kani::unwind(5)]
 fn k_fill_copy_clone_str() {
     let b = mk_bump::<1>(448);
@@ -184,6 +188,7 @@ fn k_fill_copy_clone_str() {
 }
 
 #[kani::proof]
+#[kani::stub(Bump::alloc_layout_slow, slow_refuses_panic)]
 #[kani::unwind(5)]
 fn k_fill_with_order() {
     let b = mk_bump::<1>(448);
